@@ -22,3 +22,4 @@ def run(repo, res, tier):
     # values of the caller's substitute classes keep their class inside sets and sequences: no per-element conversion
     from .. import hookrules as _hk4
     _hk4.rule_h4(repo, res)
+    _hk4.rule_h5(repo, res)
